@@ -28,7 +28,7 @@ fn dur_ns(d: (u64, u32)) -> i128 {
     d.0 as i128 * 1_000_000_000 + d.1 as i128
 }
 
-const NAMES: [&str; 7] = ["", "a", "issuer", "https://paseto.conrad.cafe/", "Issuer", "issuer ", "\u{0}"];
+const NAMES: [&str; 10] = ["", "a", "issuer", "https://paseto.conrad.cafe/", "https://paseto.conrad.cafe", "Issuer", "issuer ", "\u{0}", "/", "x//"];
 
 fn leaf(b: &mut Builder, now: i128, claims: &RegSpec, lw: (u64, u32)) -> VSpec {
     let pick_name = |b: &mut Builder, have: &Option<String>| -> String {
@@ -36,7 +36,10 @@ fn leaf(b: &mut Builder, now: i128, claims: &RegSpec, lw: (u64, u32)) -> VSpec {
             (Some(s), 0..=2) => s.clone(),
             // a different string of the same length whose differences cancel under folding (transposed
             // characters, the same substitution made twice, reversal, two case flips)
-            (Some(s), 3 | 4) if s.chars().count() >= 2 => near_miss(b, s),
+            (Some(s), 3 | 4) if s.chars().count() >= 2 => {
+                let m = near_miss(b, s);
+                if m == *s { b.rng.pick(&NAMES).to_string() } else { m }
+            }
             _ => b.rng.pick(&NAMES).to_string(),
         }
     };
@@ -66,7 +69,17 @@ fn near_miss(b: &mut Builder, s: &str) -> String {
         }
         (i, j)
     };
-    match b.rng.below(4) {
+    match b.rng.below(7) {
+        // one character more or less at either end (separators, blanks, NUL, URL punctuation)
+        4 => c.push(*b.rng.pick(&['/', '.', ' ', '\0', '#', '?', ':', '\n'])),
+        5 => c.insert(0, *b.rng.pick(&['/', '.', ' ', '\0', '#'])),
+        6 => {
+            if b.rng.bool() {
+                c.pop();
+            } else {
+                c.remove(0);
+            }
+        }
         0 => c.swap(i, j),
         1 => {
             // the same substitution at two positions (ASCII only, so that the byte length is kept)
@@ -443,6 +456,10 @@ impl Scenario for C14 {
                 b.push(Step::Codec { case: CodecCase::FailingEncode { footer, filler } });
             }
             let value = b.json_value(3);
+            b.push(Step::Codec { case: CodecCase::JsonTransparent { value } });
+        }
+        for _ in 0..12 {
+            let value = b.json_stress();
             b.push(Step::Codec { case: CodecCase::JsonTransparent { value } });
         }
         b.finish()
